@@ -891,8 +891,11 @@ func specBoolByte(b bool) int {
 //@   ensures fresh(result)
 //@   ensures !complete ==> len(result) == 0
 //@   ensures complete ==> len(result) == 14 + n
-//@   ensures complete && n + 10 < 4294967296 ==> result[0] == ((n+10)/16777216)%256 && result[1] == ((n+10)/65536)%256 && result[2] == ((n+10)/256)%256 && result[3] == (n+10)%256
-//@   ensures complete ==> result[4] == node.sessionID/256 && result[5] == node.sessionID%256
+//@   ensures complete && n + 10 < 4294967296 ==> result[0] == fmod(fdiv(n+10, 16777216), 256)
+//@   ensures complete && n + 10 < 4294967296 ==> result[1] == fmod(fdiv(n+10, 65536), 256)
+//@   ensures complete && n + 10 < 4294967296 ==> result[2] == fmod(fdiv(n+10, 256), 256)
+//@   ensures complete && n + 10 < 4294967296 ==> result[3] == fmod(n+10, 256)
+//@   ensures complete ==> result[4] == fdiv(node.sessionID, 256) && result[5] == fmod(node.sessionID, 256)
 //@   ensures complete ==> result[6] == node.stream + ite(node.waitBit == 1, 128, 0) && result[7] == node.function && result[8] == 0 && result[9] == 0
 //@   ensures complete ==> forall k int :: 0 <= k && k < 4 ==> result[10+k] == node.systemBytes[k]
 //@   ensures complete ==> forall k int :: 0 <= k && k < n ==> result[14+k] == enc_at(node.dataItem, k)
